@@ -130,6 +130,15 @@ def check_case(case) -> Result:
                     r.fail("solver_hamiltonian_spectrum_differs", f"t={t_rel}: max |spec(H_solver) - spec(H_ref)| = {np.abs(w_int - w).max():.3e}")
                     break
                 loc = tn.local_two_site_minima(fs_int, H_int)
+                psi_int = tn.mps_to_dense(fs_int)
+                psi_int = psi_int / np.linalg.norm(psi_int)
+                resid = float(np.linalg.norm(H_int @ psi_int - np.vdot(psi_int, H_int @ psi_int) * psi_int))
+                if E - E0 > bound and resid <= 1e-8 * nH:
+                    # an exact excited eigenstate (typically |g..g> under a drive of zero amplitude): every Krylov solve
+                    # started from it breaks down immediately and returns it
+                    r.fail("not_the_ground_energy:gapped:stuck_in_exact_eigenstate",
+                           f"t={t_rel}: E={E!r} is an eigenvalue (residual {resid:.1e}) but E0={E0!r}; gap {gap:.3g}, n={n}")
+                    break
                 if min(loc) < E - bound:
                     r.fail("stopped_before_local_optimum", f"t={t_rel}: energy {E!r} but the two-site problem at bond {int(np.argmin(loc))} reaches {min(loc)!r} "
                                                            f"(allowed slack {bound:.2e}); E0={E0!r}")
